@@ -246,6 +246,23 @@ def explore(ctx):
             run_case(ctx, case, fonts, ds, lambda: list(ufo2ft.compileInterpolatableTTFs(fonts, **opts)))
         else:
             run_case(ctx, case, fonts, ds, lambda: getattr(ufo2ft, fn)(ds, **opts))
+    # ---------------- font LISTS whose masters carry their own, differing public.skipExportGlyphs lists (the documented rule
+    # takes the union): the lists are the callers' own objects inside font.lib
+    for i in range(ctx.budget(8, 24)):
+        lib = ["ufoLib2", "defcon"][i % 2]
+        ds, fonts, masters = dsgen.family(rng, 2 + (i // 2) % 2, lib)
+        nm = [g["name"] for g in masters[0]["glyphs"]]
+        pats = [[[nm[-1]], [nm[-1], nm[-2]]], [[nm[-2], nm[-1]], [nm[-1]]], [[], [nm[-1]]], [[nm[-1]], [nm[-1]]]][(i // 2) % 4]
+        for k, f in enumerate(fonts):
+            f.lib["public.skipExportGlyphs"] = list(pats[min(k, len(pats) - 1)])
+        which = ["compileInterpolatableTTFs", "InterpolatableOTFCompiler.compile"][(i // 8) % 2] if not ctx.quick() else "compileInterpolatableTTFs"
+        case = {"function": which, "lib": lib, "masters": len(fonts), "skip_lists": pats, "font": jsonable(masters[0])}
+        ctx.klass("family:" + which + "+per-master skip lists")
+        if which == "compileInterpolatableTTFs":
+            run_case(ctx, case, fonts, ds, lambda: list(ufo2ft.compileInterpolatableTTFs(fonts)))
+        else:
+            from ufo2ft._compilers.interpolatableOTFCompiler import InterpolatableOTFCompiler
+            run_case(ctx, case, fonts, ds, lambda: list(InterpolatableOTFCompiler().compile(fonts)))
     # ---------------- source locations that leave out the axes on which the source sits at the default
     for i in range(ctx.budget(6, 24)):
         lib = ["ufoLib2", "defcon"][i % 2]
